@@ -45,6 +45,7 @@ type Config struct {
 	MaxViolPerID   int
 	Deadline       time.Time
 	Params         map[string]int
+	Havoc          map[string]bool
 }
 
 type Decision struct {
@@ -152,8 +153,9 @@ type Engine struct {
 	qcache      map[string]qres
 	qhits       int
 	mergeFail   map[*ssa.Function]int
-	hashLogs    map[string]*Term
+	ufCalls     []ufCall
 	ghost       map[string]value
+	pipes       map[*value]*pipeState
 }
 
 func NewEngine(id int, prog *ssa.Program, cfg *Config, shared *Shared) (*Engine, error) {
@@ -320,6 +322,19 @@ func (e *Engine) branch(cond *Term, fr *frame, instr ssa.Instruction) bool {
 		panic(engineError{"symbolic branch during package initialisation"})
 	}
 	p := e.cur
+	// already decided syntactically by the path condition? (deterministic,
+	// so it needs no recorded decision)
+	ncond := e.ctx.Not(cond)
+	for q := p; q != nil; q = q.parent {
+		for _, l := range q.pc {
+			if l == cond {
+				return true
+			}
+			if l == ncond {
+				return false
+			}
+		}
+	}
 	if p.cursor < len(p.prefix) {
 		d := p.prefix[p.cursor]
 		p.cursor++
@@ -353,6 +368,17 @@ func (e *Engine) branch(cond *Term, fr *frame, instr ssa.Instruction) bool {
 	res, m := e.check(other, true)
 	switch res {
 	case Sat:
+		if qstat != nil && e.mergeDepth == 0 {
+			k := "FORK ?"
+			if fr != nil && instr != nil {
+				k = "FORK " + fr.posOf(instr)
+			} else if fr != nil {
+				k = "FORK " + fr.fn.String()
+			}
+			qstatMu.Lock()
+			qstat[k]++
+			qstatMu.Unlock()
+		}
 		alt := make([]Decision, len(p.decisions)+1)
 		copy(alt, p.decisions)
 		alt[len(p.decisions)] = Decision{Taken: !mv}
@@ -403,6 +429,11 @@ func (e *Engine) concretize(t *Term, why string) uint64 {
 		res, m := e.check(c.Not(cond), true)
 		switch res {
 		case Sat:
+			if qstat != nil && e.mergeDepth == 0 {
+				qstatMu.Lock()
+				qstat["FORK concretize "+why]++
+				qstatMu.Unlock()
+			}
 			alt := make([]Decision, len(p.decisions)+1)
 			copy(alt, p.decisions)
 			alt[len(p.decisions)] = Decision{Taken: false, Val: v, Conc: true}
@@ -640,7 +671,8 @@ func (e *Engine) runPath(it workItem) {
 	e.activeKnown = nil
 	e.symbolic = false
 	e.mergeDepth = 0
-	e.hashLogs = nil
+	e.ufCalls = nil
+	e.pipes = nil
 	e.ghost = nil
 	defer e.undoAll()
 	defer func() {
